@@ -148,6 +148,8 @@ def num_literal(rng, params, const, depth=1, extra_terms=()):
     if isinstance(l, str):
         l = rng.choice(num_terms(params, const, extra_terms))
     r = num_exprs(rng, params, const, max(depth - 1, 0), extra_terms)
+    if rng.random() < 0.2:
+        l, r = r, l  # the constant / the smaller expression on the left
     return [op, l, r]
 
 
@@ -332,6 +334,9 @@ def core_preconditions():
         ["<=", ["/", ["/", ["g"], ["f", "?x"]], ["f", "?y"]], "100000"],
         ["=", ["f", "?x"], "100000"],
         [">=", ["f", "?x"], "-100000.5"],
+        # the constant on the left
+        ["<=", "1", ["f", "?x"]], [">=", "1", ["f", "?x"]], ["<", "0.5", ["f", "?x"]], [">", "2", ["g"]], ["=", "1", ["f", "?x"]],
+        ["<=", "-1", ["-", ["f", "?x"], ["g"]]],
     ]
     for s in singles:
         out.append(("P2", ["and", s]))
